@@ -1,9 +1,23 @@
-#!/bin/sh
-# usage: lib/try_mutant.sh <patch> <check id>...   — apply to /repo, run quick checks, revert
-p="$(realpath "$1")"; shift
-cd /repo || exit 2
-git apply "$p" || { echo "patch does not apply: $p"; exit 2; }
+#!/bin/bash
+# usage: lib/try_mutant.sh <patch> <check id>...
+# Tries a mutant WITHOUT touching /repo: a scratch worktree /tmp/wt/mrepo and a copy of the harness
+# /tmp/wt/mh whose path dependencies point at it; out/evidence go to /tmp/wt/mout, /tmp/wt/mevid.
+set -u
+P="$(realpath "$1")"; shift
+M=/tmp/wt
+mkdir -p $M
+while ! mkdir $M/mutant.lock 2>/dev/null; do sleep 5; done
+trap 'rmdir $M/mutant.lock' EXIT
+if [ ! -d $M/mrepo ]; then git -C /repo worktree add -q --detach $M/mrepo HEAD || exit 2; fi
+git -C $M/mrepo checkout -q -- . && git -C $M/mrepo checkout -q --detach "$(git -C /repo rev-parse HEAD)"
+mkdir -p $M/mh
+rsync -a --delete --exclude 'target*' /verif/harness/ $M/mh/
+sed -i "s|/repo/crates|$M/mrepo/crates|g" $M/mh/Cargo.toml
+git -C $M/mrepo apply "$P" || { echo "patch does not apply: $P"; exit 2; }
+export VERIF_HARNESS=$M/mh VERIF_REPO=$M/mrepo VERIF_OUT=$M/mout VERIF_EVID=$M/mevid
 for c in "$@"; do
-  ( cd /verif && ./check "$c" --tier quick 2>&1 | tail -3 ); echo "  -> $c exit $?"
+  out=$(cd /verif && ./check "$c" --tier quick 2>&1); rc=$?
+  echo "$out" | tail -3 | cut -c1-300
+  echo "  -> $(basename "$P") vs $c: exit $rc"
 done
-git -C /repo checkout -- . 
+git -C $M/mrepo checkout -q -- .
